@@ -21,7 +21,12 @@ EXPLANATION = ("theorems: one dispatch step against the flat map (address, flow 
                "the statements hold after every history. Oracle checkC02 = trace consequences evaluated in Lean on the real trace")
 ASSUMPTIONS = ["user callbacks do not panic, issue commands only through their handle, and use field lists shorter than 2^24",
                "HashMap iteration order is canonicalised (drop order within one batch is sorted)"]
-LEVEL_TEXT = ("Machine-checked proof (Lean 4), per message kind and for every reachable state/configuration/policy, that the dispatch "
+LEVEL_TEXT = ("Machine-checked proof (Lean 4) that the runtime model REFINES the flat partial map (datapath address, flow id) -> handler for EVERY "
+              "history: history_refines_flat_map (every configuration, bounded policy, send-failure script and input history: the callbacks "
+              "per input are those of the 30-line specification C02.specStep), loop_refines_flat_map (the same for the loop over arbitrary "
+              "datagram bytes, receive failures and stop requests), wellformed_script_calls_eq_spec (datagram BYTES in, user-code calls out: "
+              "for every script of datagrams made of libccp-encoded messages the calls are exactly the specification's over the carried "
+              "messages, each from its datagram's sender). Underneath, per message kind and for every reachable state, that the dispatch "
               "step of the runtime model refines the flat map (datapath address, flow id) -> handler: one handler per create carrying the "
               "message's connection details, replacement without close, in-order delivery of each non-empty measurement with its uid "
               "and values to exactly the registered handler, close exactly once then forget, nothing for unknown targets. The model "
